@@ -188,6 +188,18 @@ struct Interp
          }
          else if (k == "read") {Conn * c = sim.C(ci); if ((c)&&(!c->noread)) sim.ClientRead(c);}
          else if ((k == "noread")&&(t.size() >= 3)) {Conn * c = sim.C(ci); if (c) {c->noread = (t[2] == "1"); if (c->noread) sim.st.inc("f.slow_reader");}}
+         else if ((k == "flood")&&(t.size() >= 3))
+         {
+            // the client becomes (or stops being) a flooding peer: an endless supply of valid NOOP frames is readable on its connection, as fast as the server reads.
+            // What the server owes everybody else does not change: it may spend only a bounded share of each loop iteration on this client.
+            static std::string noopFrame; if (noopFrame.empty()) {MessageIOGateway g; SimStream tmp, dummy; g.SetDataIO(DataIORef(new SimDataIO(&dummy, &tmp))); (void) g.AddOutgoingMessage(GetMessageFromPool(PR_COMMAND_NOOP)); for (int i=0; (i<10)&&(g.HasBytesToOutput()); i++) (void) g.DoOutput(); noopFrame.assign(tmp.q.begin(), tmp.q.end());}
+            Conn * c = sim.C(ci);
+            if ((c)&&(c->up))
+            {
+               if (t[2] == "1") {if ((c->gw)&&(c->gw->HasBytesToOutput() == false)&&(c->c2s.cutAfter < 0)&&(!c->c2s.closed)) {c->c2s.floodUnit = &noopFrame; c->c2s.SetSched(false, std::vector<uint32_t>(1, 0xffffffffu)); sim.st.inc("f.flooding_client");} /* (a flood arrives as fast as the server reads: whole-buffer reads from here on) */ else sim.st.inc("p.flood_skipped_partial_frame_pending");}
+               else c->c2s.floodUnit = NULL;
+            }
+         }
          else if ((k == "stall")&&(t.size() >= 3))  {Conn * c = sim.C(ci); if (c) {c->stalled = (t[2] == "1"); if (c->stalled) sim.st.inc("f.stalled_client");}}
          else if ((k == "cap")&&(t.size() >= 3))    {Conn * c = sim.C(ci); if (c) c->s2c.capacity = ToU(t[2]) ? ToU(t[2]) : (uint64_t)-1;}
          else if ((k == "chunks")&&(t.size() >= 4))
